@@ -23,7 +23,7 @@ ALT_MNEMONIC = {"ldr": "ldur", "ldrb": "ldurb", "ldrh": "ldurh", "ldrsb": "ldurs
 # LDP/STP encoding class of the assembler: write-back addressing with a zero offset is emitted as the plain signed-offset word
 PAIR_NAMES = {"ldp", "stp", "ldpsw", "stgp"}
 INVERTIBLE = {"SGp", "SImmU", "SImmS", "SCond", "SRel", "SMemBase", "SMemOff", "SMemLit", "SShift", "SVec", "SVecElem",
-              "SGpDup", "SImmLt", "SSysReg", "SImmConst", "SMemPostImm", "SMemPostReg", "SMemIdx", "SMemPair", "SGpPair", "SSysOp"}
+              "SGpDup", "SImmLt", "SSysReg", "SImmConst", "SMemPostImm", "SMemPostReg", "SMemIdx", "SMemPair", "SGpPair", "SSysOp", "SImmRsub", "SFpImm"}
 INV_COND = {"cinc", "cinv", "cneg", "cset", "csetm"}
 
 
@@ -63,9 +63,11 @@ def apply_overrides(rows, overrides):
     return applied
 
 
-ARR = {"8B": (3, 1), "16B": (4, 1), "4H": (3, 2), "8H": (4, 2), "2S": (3, 3), "4S": (4, 3), "1D": (3, 4), "2D": (4, 4)}
+ARR = {"8B": (3, 1), "16B": (4, 1), "4H": (3, 2), "8H": (4, 2), "2S": (3, 3), "4S": (4, 3), "1D": (3, 4), "2D": (4, 4),
+       "2H": (2, 2)}          # Vn.2H: the 32-bit view with H elements (FADDP Hd, Vn.2H ...)
 SCALAR_RT = {"B": 0, "H": 1, "S": 2, "D": 3, "Q": 4}
-ELEM = {"B": (1, 16), "H": (2, 8), "S": (3, 4), "D": (4, 2)}
+ELEM = {"B": (1, 16), "H": (2, 8), "S": (3, 4), "D": (4, 2),
+        "4B": (5, 4), "2H": (6, 4)}     # groups of four bytes / two half-words (dot products): AsmJit's VecElementType kB4 = 5, kH2 = 6
 
 
 def expand_simd(rows):
@@ -139,6 +141,9 @@ def parse_ops(r):
     def need(f):
         if f == "Rn" and f not in F and "Vn" in F and any(o.startswith("[Xn|SP") for o in ops):
             return "Vn"          # SIMD load/store rows name the base register field Vn
+        if f not in F and re.match(r"^R[dnmt]$", f) and "V" + f[1] in F and fwidth(r, "V" + f[1]) == 5 \
+                and not any(re.match(r"^[BHSDQV]%s(\W|$)" % f[1], x) for x in ops):
+            return "V" + f[1]    # FP<->integer conversions name the general register's field Vd / Vn
         if f not in F:
             raise Unsupported("field %s missing in opcode" % f)
         return f
@@ -148,28 +153,45 @@ def parse_ops(r):
         for fv in F:
             if fv.startswith("V") and fwidth(r, fv) > 5:
                 raise Unsupported("vector register written into two fields")
+        def vfield(nm):
+            """the register field of vector operand <nm>: V<nm>, or - when the row names the same register differently in its operand
+            text and in its opcode (stores: `Sd` / Vs, destructive forms: `Vd` / Vx) - the alternative that no other operand uses"""
+            if "V" + nm in F:
+                return "V" + nm
+            for alt in {"d": ("s", "x", "t"), "d2": ("s2", "t2"), "t": ("d", "s"), "t2": ("d2", "s2")}.get(nm, ()):
+                used = any(re.match(r"^(\d+x\{)?[BHSDQV]%s(\W|$)" % alt, x) for x in ops)
+                if "V" + alt in F and not used:
+                    return "V" + alt
+            if "R" + nm in F and fwidth(r, "R" + nm) == 5 and not any(re.match(r"^[WX]%s(\W|$)" % nm, x) or x.startswith("[Xn|SP") and nm == "n" for x in ops):
+                return "R" + nm          # INS (element) names the source vector's field Rn
+            return None
         mv = re.match(r"^([BHSDQ])([a-z]+\d?)$", o)
-        if mv and ("V" + mv.group(2)) in F:
-            f = "V" + mv.group(2)
+        if mv and vfield(mv.group(2)):
+            f = vfield(mv.group(2))
             syn.append(("SVec", SCALAR_RT[mv.group(1)], 0, f, fwidth(r, f)))
             i += 1
             continue
-        mv = re.match(r"^V([a-z]+\d?)\.(8B|16B|4H|8H|2S|4S|1D|2D)$", o)
-        if mv and ("V" + mv.group(1)) in F:
-            f = "V" + mv.group(1)
+        mv = re.match(r"^V([a-z]+\d?)\.(8B|16B|4H|8H|2S|4S|1D|2D|2H)$", o)
+        if mv and vfield(mv.group(1)):
+            f = vfield(mv.group(1))
             rt, et = ARR[mv.group(2)]
             syn.append(("SVec", rt, et, f, fwidth(r, f)))
             i += 1
             continue
-        mv = re.match(r"^V([a-z]+\d?)\.([BHSD])\[#(\w+)\]$", o)
-        if mv and ("V" + mv.group(1)) in F and mv.group(3) in F:
+        mv = re.match(r"^V([a-z]+\d?)\.(4B|2H|[BHSD])\[#(\w+)\]$", o)
+        fi = mv.group(3) if mv and mv.group(3) in F else ("imm" if mv and mv.group(3) == "idx" and "imm" in F and not imm else None)   # FMLAL: lane field named imm
+        if mv and ("V" + mv.group(1)) in F and fi:
             f = "V" + mv.group(1)
             et, lanes = ELEM[mv.group(2)]
-            wi = fwidth(r, mv.group(3))
-            syn.append(("SVecElem", et, f, fwidth(r, f), mv.group(3), wi, min(lanes, 1 << wi)))
+            wi = fwidth(r, fi)
+            syn.append(("SVecElem", et, f, fwidth(r, f), fi, wi, min(lanes, 1 << wi)))
             i += 1
             continue
         msh = re.match(r"^ASimdShift([NP])Imm\(\w+, (\w+)\)$", imm) or re.match(r"^ASimd(F)BitsHBImm\(\w+, (\d+)\)$", imm)
+        if not msh and re.match(r"^ASimdSHL\(\w+, (\w+)\)$", imm):          # SHL: left shift 0..esize-1
+            msh = re.match(r"^ASimdSH(L)\(\w+, (\w+)\)$", imm)
+        if not msh and re.match(r"^ASimdSHRN\(\w+, (\w+)\)$", imm):         # SHRN: right shift 1..esize of the NARROW element
+            msh = re.match(r"^ASimdSHR(N)\(\w+, (\w+)\)$", imm)
         if msh and o in ("#n", "#fbits", "#bits") and "immh" in F and "immb" in F and fwidth(r, "immh") == 4 and fwidth(r, "immb") == 3:
             if msh.group(1) == "F":
                 esize, left = int(msh.group(2)), False
@@ -177,7 +199,7 @@ def parse_ops(r):
                 k = r.get("t_index") if msh.group(2) == "sz" else int(msh.group(2))
                 if k is None or not (0 <= k <= 3):
                     raise Unsupported("shift immediate without element size")
-                esize, left = 8 << k, msh.group(1) == "P"
+                esize, left = 8 << k, msh.group(1) in ("P", "L")
             syn.append(("SVShift", left, esize, "immh", "immb"))
             imm = ""
             i += 1
@@ -187,7 +209,8 @@ def parse_ops(r):
             syn.append(("SGpPair", mp.group(1) == "X", "R" + mp.group(2)))
             i += 1
             continue
-        if o == "+" and i > 0 and ops[i - 1].startswith("2x{"):      # continuation slot of a GP pair
+        if o == "+" and i > 0 and any(re.match(r"^\dx\{", x) for x in ops[:i]) and all(x == "+" or re.match(r"^\dx\{", x) for x in ops[max(0, i - 3):i][-1:]):
+            # continuation slot of a GP pair / of a register list written with "+" (consecutive registers)
             i += 1
             continue
         if o == "":            # continuation slot of a register list (db/aarch64.js expands "Nx{...}" into N operands)
@@ -201,6 +224,11 @@ def parse_ops(r):
             continue
         if o == "[Xn|SP, Xm]@" and "Rm" in F:
             syn.append(("SMemPostReg", need("Rn"), "Rm"))
+            i += 1
+            continue
+        mv = re.match(r"^\[Xn\|SP, #off==(\d)<<sz\]@$", o)
+        if mv and r.get("t_index") is not None:        # LDnR post-index by the transfer size: n elements of the arrangement's element size
+            syn.append(("SMemPostImm", need("Rn"), int(mv.group(1)) << r["t_index"]))
             i += 1
             continue
         mv = re.match(r"^\[Xn\|SP, #off==?(\d+)\]@$", o)
@@ -273,6 +301,35 @@ def parse_ops(r):
             imm = ""
             i += 2
             continue
+        mfs = re.match(r"^ASimdFBitsScaleImm\(fbits, (32|64)\)$", imm)
+        if o == "#fbits" and mfs and "scale" in F and fwidth(r, "scale") == 6:
+            syn.append(("SImmRsub", "scale", 6, 64, 1, int(mfs.group(1))))      # fixed-point conversions: scale = 64 - fbits, 1 <= fbits <= register width
+            imm = ""
+            i += 1
+            continue
+        mo = re.match(r"^\{#(\w+)(=\d+)?\}$", o)
+        if mo and (not imm or re.match(r"^ImmISB\(", imm)) and (mo.group(1) in F or "CRm" in F):
+            # optional immediate (ISB / CLREX option, DCPSn): a64::Assembler requires the operand, so only the explicit form is modelled
+            f = mo.group(1) if mo.group(1) in F else "CRm"
+            syn.append(("SImmU", f, fwidth(r, f), 1))
+            imm = ""
+            i += 1
+            continue
+        if o == "#barrier_op" and "CRm" in F and "barrier_op" not in F:      # DMB / DSB: the option is the CRm field
+            syn.append(("SImmU", "CRm", fwidth(r, "CRm"), 1))
+            imm = ""
+            i += 1
+            continue
+        if o == "#fimm" and re.match(r"^ASimdFMovImm\(", imm):
+            if "imm" in F and len(F["imm"]) == 1 and F["imm"][0]["size"] == 8 and F["imm"][0]["from"] == 0 and "abc" not in F and "defgh" not in F:
+                sl = F.pop("imm")[0]         # the scalar rows write the 8-bit immediate as one field: split it like the vector rows (abc:defgh)
+                F["abc"] = [{"pos": sl["pos"] + 5, "size": 3, "from": 0}]
+                F["defgh"] = [{"pos": sl["pos"], "size": 5, "from": 0}]
+            if "abc" in F and "defgh" in F and fwidth(r, "abc") == 3 and fwidth(r, "defgh") == 5:
+                syn.append(("SFpImm", "abc", "defgh"))
+                imm = ""
+                i += 1
+                continue
         if o == "#sysreg" and "sysreg" in F:
             syn.append(("SSysReg", "sysreg"))
             i += 1
@@ -344,6 +401,12 @@ def parse_ops(r):
                 syn.append(("SMemOff", need("Rn"), f, fwidth(r, f), sgn, scale, mode))
             i += 1
             continue
+        mx = re.match(r"^\[Xn\|SP, Rm, \{uxtw\|lsl\|sxtw\|sxtx #n\*([1-4])\}\]$", o)
+        if mx and "s" not in F and "n" in F and fwidth(r, "n") == 1:
+            # SIMD&FP register-offset loads/stores: the S bit is the field named n, the shift amount is log2 of the transfer size
+            syn.append(("SMemIdx", need("Rn"), need("Rm"), need("option"), "n", int(mx.group(1))))
+            i += 1
+            continue
         if o == "[Xn|SP, Rm, {uxtw|lsl|sxtw|sxtx #n}]":
             mi = re.match(r"^Imm(LDR|LDRB|LDRH|LDRW|LDR_STR|LDRB_STRB|LDRH_STRH)\(iop, n\)$", imm)
             if not mi:
@@ -373,13 +436,13 @@ SYN_FIELDS = {   # which args are field names, and the declared widths (mirror o
     "SLogImm": lambda a: [(a[1], 13)], "SGpDup": lambda a: [(a[2], 5), (a[3], 5)], "SImmLt": lambda a: [(a[0], a[1])],
     "SBitfield": lambda a: [(a[2], 6), (a[3], 6)], "SMovW": lambda a: [(a[1], 16), (a[2], 2)], "SSysReg": lambda a: [(a[0], 15)],
     "SImmConst": lambda a: [], "SVec": lambda a: [(a[2], a[3])], "SVecElem": lambda a: [(a[1], a[2]), (a[3], a[4])],
-    "SVShift": lambda a: [(a[2], 4), (a[3], 3)], "SGpPair": lambda a: [(a[1], 5)], "SSysOp": lambda a: [(a[0], 3), (a[1], 4), (a[2], 3)], "SVecList": lambda a: [(a[3], 5)], "SMemPostReg": lambda a: [(a[0], 5), (a[1], 5)], "SMemPostImm": lambda a: [(a[0], 5)],
+    "SVShift": lambda a: [(a[2], 4), (a[3], 3)], "SGpPair": lambda a: [(a[1], 5)], "SSysOp": lambda a: [(a[0], 3), (a[1], 4), (a[2], 3)], "SImmRsub": lambda a: [(a[0], a[1])], "SFpImm": lambda a: [(a[0], 3), (a[1], 5)], "SVecList": lambda a: [(a[3], 5)], "SMemPostReg": lambda a: [(a[0], 5), (a[1], 5)], "SMemPostImm": lambda a: [(a[0], 5)],
 }
 FIELD_ARGPOS = {"SGp": [2], "SImmU": [0], "SImmS": [0], "SCond": [0], "SShift": [0, 1], "SExtReg": [1, 2, 3], "SAddImm": [0, 1], "SRel": [0],
                 "SMemBase": [0], "SMemOff": [0, 1], "SMemPair": [0, 1, 4, 5], "SMemIdx": [0, 1, 2, 3], "SMemLit": [0], "SLogImm": [1],
                 "SGpDup": [2, 3], "SImmLt": [0], "SBitfield": [2, 3], "SMovW": [1, 2], "SSysReg": [0],
                 "SImmConst": [], "SVec": [2], "SVecElem": [1, 3], "SVecList": [3], "SMemPostReg": [0, 1], "SMemPostImm": [0],
-                "SVShift": [2, 3], "SGpPair": [1], "SSysOp": [0, 1, 2]}
+                "SVShift": [2, 3], "SGpPair": [1], "SSysOp": [0, 1, 2], "SImmRsub": [0], "SFpImm": [0, 1]}
 
 
 def template_items(r):
@@ -417,6 +480,41 @@ def split_dup_fields(r):
             r["fields"][f + "'"] = [dict(ss[1], **{"from": 0})]
 
 
+def fix_field(r, f, v):
+    r2 = json.loads(json.dumps(r))
+    ss = r2["fields"].pop(f)
+    assert len(ss) == 1 and 0 <= v < (1 << ss[0]["size"])
+    r2["value"] = r2["value"] | (v << ss[0]["pos"])
+    r2.setdefault("inferred", []).append([f, v])
+    return r2
+
+
+def infer_fixed(r, missing):
+    """Opcode fields that no operand binds and that the row's text determines (translator conventions, validated by the llvm-mc oracle
+    like every other row):  sz (2 bits) = element-size index B0 H1 S2 D3 of the first vector operand written with an explicit
+    arrangement or as a scalar register;  immh of the SXTL/UXTL aliases (a shift by 0) = 1 << index of the "t" entry.  Returns the row with these fields turned into fixed bits, or None."""
+    r2 = r
+    for f in missing:
+        ss = r["fields"][f]
+        if len(ss) != 1:
+            return None
+        if f == "sz" and ss[0]["size"] == 2:
+            k = None
+            for o in r["ops"]:
+                m = re.match(r"^([BHSD])[a-z]+\d?$", o) or re.match(r"^V[a-z]+\d?\.\d+([BHSD])$", o)
+                if m:
+                    k = "BHSD".index(m.group(1))
+                    break
+            if k is None:
+                return None
+            r2 = fix_field(r2, f, k)
+        elif f == "immh" and ss[0]["size"] == 4 and r.get("t_index") is not None and r["name"] in ("sxtl", "sxtl2", "uxtl", "uxtl2") and r["t_index"] <= 2:
+            r2 = fix_field(r2, f, 1 << r["t_index"])
+        else:
+            return None
+    return r2
+
+
 def load_excluded():
     p = os.path.join(vlib.VERIF, "corpus", "C02", "db_excluded.json")
     return json.load(open(p)) if os.path.exists(p) else []
@@ -438,6 +536,15 @@ def classify(rows, excluded=None):
         try:
             split_dup_fields(r)
             syn = parse_ops(r)
+            bound = set()
+            for s in syn:
+                bound |= {d[0] for d in SYN_FIELDS[s[0]](s[1:])}
+            missing = sorted(set(r["fields"].keys()) - bound)
+            if missing and bound <= set(r["fields"].keys()):
+                r2 = infer_fixed(r, missing)
+                if r2 is not None:
+                    r.clear()
+                    r.update(r2)
             items = template_items(r)
             declared = []
             for s in syn:
